@@ -56,6 +56,11 @@ class _Rewriter(ast.NodeTransformer):
 
     def visit_Call(self, node):
         self.generic_visit(node)
+        if "join" in self.opts and isinstance(node.func, ast.Attribute) and node.func.attr == "join" \
+                and len(node.args) == 1 and not node.keywords:
+            self.count["join"] = self.count.get("join", 0) + 1
+            return ast.copy_location(ast.Call(func=ast.Name(id="__vjoin__", ctx=ast.Load()),
+                                              args=[node.func.value, node.args[0]], keywords=[]), node)
         if isinstance(node.func, ast.Name) and node.func.id == "super" and not node.args and self.first_arg:
             self.count["super"] += 1
             node.args = [ast.Name(id="__vcls__", ctx=ast.Load()), ast.Name(id=self.first_arg, ctx=ast.Load())]
@@ -225,7 +230,27 @@ def _mux(items, idx):
     return SInt(z3.simplify(r), ow)
 
 
-HOOKS = {"__vfmt__": vfmt, "__vfstr__": vfstr, "__vidx__": vidx}
+def vjoin(sep, parts):
+    parts = list(parts)
+    if isinstance(sep, (bytes, SBytes)):
+        if all(isinstance(p, (bytes, bytearray)) for p in parts) and isinstance(sep, bytes):
+            return sep.join(parts)
+        from .sbytes import join_bytes
+        return join_bytes(sep, parts)
+    if isinstance(sep, (str, SStr)):
+        if all(isinstance(p, str) for p in parts) and isinstance(sep, str):
+            return sep.join(parts)
+        out = SStr([])
+        for i, p in enumerate(parts):
+            if i:
+                out = out + sep
+            out = out + p
+        c = out.concrete()
+        return c if c is not None else out
+    return sep.join(parts)
+
+
+HOOKS = {"__vfmt__": vfmt, "__vfstr__": vfstr, "__vidx__": vidx, "__vjoin__": vjoin}
 
 
 def instrument(func, opts=("fmt", "fstr", "idx"), owner=None, extra=None, hooks=None):
